@@ -38,6 +38,9 @@ type Spec struct {
 	Unread   bool   `json:"unread,omitempty"`
 	Rejected bool   `json:"rejected,omitempty"`
 	Ext      string `json:"ext,omitempty"` // set_unread: spelling of the stored file's extension (default ".b2f")
+	// FirstMbox: the handler is created and prepared for this mailbox first and then pointed at Mbox through its
+	// exported MBoxPath field (one long-lived handler serving several call signs)
+	FirstMbox string `json:"first_mbox,omitempty"`
 }
 
 type Result struct {
@@ -89,6 +92,11 @@ func main() {
 	}()
 
 	h := mailbox.NewDirHandler(s.Mbox, s.SendOnly)
+	if s.FirstMbox != "" {
+		h = mailbox.NewDirHandler(s.FirstMbox, s.SendOnly)
+		h.Prepare()
+		h.MBoxPath = s.Mbox
+	}
 	if s.Prepare {
 		if err := h.Prepare(); err != nil {
 			res.PrepareErr = err.Error()
